@@ -141,6 +141,31 @@ class C08(E1Prop):
         self.nprobes = 0
 
     def next_op(self, w, rng, step, nsteps):
+        if step == 0:
+            self.script = []
+            if w.cfg.get('hotfixes') and rng.random() < 0.5:
+                # story: a hotfix branch is archived, re-created, changed
+                # and archived again (the archive tag must follow the tip)
+                hf = 'hotfix/' + w.cfg['hotfixes'][0]
+                seq = [{'op': 'api', 'job': 'delete_branch',
+                        'kwargs': {'branch': hf}},
+                       {'op': 'api', 'job': 'create_branch',
+                        'kwargs': {'branch': hf}},
+                       {'op': 'open_pr', 'actor': 'alice',
+                        'src': 'bugfix/TEST-760', 'dst': hf, 'kind': 'new'},
+                       {'op': 'eval', 'p': 0},
+                       {'op': 'ci_green_all', 'which': ['src', 'w']},
+                       {'op': 'eval', 'p': 0},
+                       {'op': 'ci_green_all', 'which': ['q']},
+                       {'op': 'deliver_all'},
+                       {'op': 'delete_src', 'p': 0},
+                       {'op': 'api', 'job': 'delete_branch',
+                        'kwargs': {'branch': hf}}]
+                for o in seq:
+                    o['dt'] = rng.choice([1, 5, 30])
+                self.script = seq
+        if getattr(self, 'script', None):
+            return self.script.pop(0)
         op = self.gen.next(w)
         tier = getattr(self, 'tier', 'quick')
         maxp = 3 if tier == 'quick' else 6
